@@ -549,6 +549,43 @@ def gen_panicsites(repo):
          "end Riti.Gen"]
     return "PanicSites.lean", "\n".join(L) + "\n"
 
+def gen_logicconsts(repo):
+    """literal constants of the hand-modelled logic (rank numbers, length guards, joining characters, truncation)"""
+    item = "logicconsts"
+    ps = strip_comments(read(f"{repo}/src/phonetic/suggestion.rs"))
+    fm = strip_comments(read(f"{repo}/src/fixed/method.rs"))
+    last = [int(x) for x in re.findall(r'Rank::last_ranked\([^;]*?,\s*(\d+)\s*,?\s*\)', ps, re.S)]
+    if len(last) != 3: raise Fail(item, f"expected 3 last_ranked calls in phonetic/suggestion.rs, found {last}")
+    g1 = re.findall(r'if middle\.len\(\) (>=|>) (\d+) \{', ps)
+    g2 = re.findall(r'else if len (>=|>) (\d+) \{', ps)
+    if len(g1) != 1 or len(g2) != 1: raise Fail(item, "length guards of add_suffix_to_suggestions / get_prev_selection")
+    def guard(op, n): return int(n) + (1 if op == ">" else 0)      # smallest length that passes
+    pushes = [ord(unescape_rust(x, item)) for x in re.findall(r'\.push\(' + CHR + r'\)', ps)]
+    arms = [ord(unescape_rust(x, item)) for x in re.findall(r'\n\s*' + CHR + r'\s*=>\s*\{', ps)]
+    zs = re.findall(r'\.zip\((\d+)\.\.\)', ps) + re.findall(r'\.zip\((\d+)\.\.\)', fm)
+    tr = [int(x) for x in re.findall(r'self\.suggestions\.truncate\((\d+)\)', fm)]
+    fl = [int(x) for x in re.findall(r'Rank::last_ranked\([^;]*?,\s*(\d+)\s*,?\s*\)', fm, re.S)]
+    m1 = re.search(r'// Zo-fola insertion\s*if value == ' + STR, read(f"{repo}/src/fixed/method.rs"))
+    m2 = re.search(r'if value == ' + STR + r' && config\.get_fixed_old_reph\(\)', fm)
+    if not m1 or not m2: raise Fail(item, "zo-fola / reph literals")
+    L = ["/- GENERATED by tools/translate.py from src/phonetic/suggestion.rs and src/fixed/method.rs — do not edit -/",
+         "namespace Riti.Gen",
+         "/-- numbers of the `Rank::last_ranked` calls of phonetic/suggestion.rs in source order (emoticon literal, English, transliteration) -/",
+         f"def lastRankNumbers : List Nat := {nat_list(last)}",
+         "/-- smallest word length for which suffix candidates are built / a learned base is searched -/",
+         f"def suffixMinLen : Nat := {guard(*g1[0])}",
+         f"def prevSelMinLen : Nat := {guard(*g2[0])}",
+         "/-- characters pushed by the joining rules and matched in their arms, source order -/",
+         f"def joinPushed : List Nat := {nat_list(pushes)}",
+         f"def joinMatched : List Nat := {nat_list(arms)}",
+         f"def emojiRankStarts : List Nat := {nat_list([int(z) for z in zs])}",
+         f"def fixedTruncations : List Nat := {nat_list(tr)}",
+         f"def fixedLastRankNumbers : List Nat := {nat_list(fl)}",
+         f"def zoFolaLiteral : List Nat := {cps(unescape_rust(m1.group(1), item))}",
+         f"def rephLiteral : List Nat := {cps(unescape_rust(m2.group(1), item))}",
+         "end Riti.Gen"]
+    return "LogicConsts.lean", "\n".join(L) + "\n"
+
 def main():
     ap = argparse.ArgumentParser()
     ap.add_argument("--repo", default="/repo")
@@ -574,7 +611,7 @@ def main():
         if r2: outs.append(r2)
     else:
         failed.append(("layoutkeys", "depends on keycodes"))
-    for item, f in (("charclasses", gen_charclasses), ("rankcmp", gen_rankcmp), ("okkhor", gen_okkhor), ("panicsites", gen_panicsites)):
+    for item, f in (("charclasses", gen_charclasses), ("rankcmp", gen_rankcmp), ("okkhor", gen_okkhor), ("panicsites", gen_panicsites), ("logicconsts", gen_logicconsts)):
         r = run(item, lambda: f(a.repo))
         if r: outs.append(r)
     changed = []
